@@ -23,6 +23,12 @@ pub struct SrvCfg {
     pub fault_percentage: Option<u32>,
     pub num_workers: Option<u32>,
     pub via_env: bool,
+    /// run under `taskset -c <cpus>` (every thread inherits the CPU set)
+    pub pin: Option<String>,
+    /// TZ of the server process (None = chosen from the port number)
+    pub tz: Option<String>,
+    /// extra environment for the server process (e.g. LD_PRELOAD of the clock shim)
+    pub extra_env: Vec<(String, String)>,
 }
 
 impl SrvCfg {
@@ -38,6 +44,9 @@ impl SrvCfg {
             fault_percentage: None,
             num_workers: None,
             via_env: false,
+            pin: None,
+            tz: None,
+            extra_env: Vec::new(),
         }
     }
 
@@ -113,11 +122,24 @@ pub fn spawn_server(bins: &Path, cfg: &SrvCfg, dir: &Path, tag: &str, raw_pairs:
     let out_path = dir.join(format!("{}.stdout", tag));
     let err_path = dir.join(format!("{}.stderr", tag));
     let pairs: Vec<(String, String)> = raw_pairs.unwrap_or_else(|| cfg.pairs().into_iter().map(|(k, v)| (k.to_string(), v)).collect());
-    let mut cmd = wrapped("RTVERIF_WRAP_SERVER", &bins.join("roughenough-server"));
+    let mut cmd = match (&cfg.pin, std::env::var("RTVERIF_WRAP_SERVER").is_ok()) {
+        (Some(cpus), false) => {
+            let mut c = Command::new("taskset");
+            c.arg("-c").arg(cpus).arg(bins.join("roughenough-server"));
+            c
+        }
+        _ => wrapped("RTVERIF_WRAP_SERVER", &bins.join("roughenough-server")),
+    };
+    // the server's time zone must not matter to anything it signs or prints for clients
+    const ZONES: [&str; 4] = ["UTC", "Asia/Tokyo", "America/New_York", "Europe/Berlin"];
+    cmd.env("TZ", cfg.tz.clone().unwrap_or_else(|| ZONES[(cfg.port % 4) as usize].to_string()));
     for (k, _) in std::env::vars() {
         if k.starts_with("ROUGHENOUGH_") {
             cmd.env_remove(k);
         }
+    }
+    for (k, v) in &cfg.extra_env {
+        cmd.env(k, v);
     }
     if cfg.via_env {
         cmd.arg("ENV");
